@@ -83,7 +83,9 @@ func observe(m *quickfix.Message, group []interface{}, hasGroup bool) tr.M {
 			}
 		}
 		if hasGroup {
-			rg := quickfix.NewRepeatingGroup(453, groupTemplate())
+			// read back through a template that also knows the field the scripts may add to an entry beyond the
+			// template it was written with (what a narrower template makes of such a group is C13's subject)
+			rg := quickfix.NewRepeatingGroup(453, append(groupTemplate(), quickfix.GroupElement(9998)))
 			if err := p.Body.GetGroup(rg); err != nil {
 				reparse, why = false, "GetGroup: "+err.Error()
 			} else if rg.Len() != len(group) {
